@@ -1036,4 +1036,134 @@ theorem step_fl (g : Led) (c : Conn) (ev : Event) (h : FL g c) : StepOK g c ev :
     · exact stepOK_quiet h rfl (by rw [step_failwrite, if_neg hst]; rfl)
         (by rw [step_failwrite, if_neg hst]; exact winRel_same rfl rfl rfl rfl rfl (.inl rfl))
 
+/-! ## runs -/
+
+/-- the ledgers and the connection after a run -/
+def grun : Led → Conn → List Event → Led × Conn
+  | g, c, [] => (g, c)
+  | g, c, e :: es => grun (gstep g c e) (step c e).1 es
+
+/-- `P` holds of every step of the run, the ledgers stepped beside the connection -/
+def GAll (P : Led → Conn → Event → Prop) : Led → Conn → List Event → Prop
+  | _, _, [] => True
+  | g, c, e :: es => P g c e ∧ GAll P (gstep g c e) (step c e).1 es
+
+theorem grun_conn : ∀ (evs : List Event) (g : Led) (c : Conn), (grun g c evs).2 = (run c evs).1 := by
+  intro evs
+  induction evs with
+  | nil => intros; rfl
+  | cons e es ih => intro g c; simp only [grun, run_cons]; exact ih _ _
+
+theorem gall_stepOK : ∀ (evs : List Event) (g : Led) (c : Conn), FL g c → GAll StepOK g c evs := by
+  intro evs
+  induction evs with
+  | nil => intros; trivial
+  | cons e es ih => intro g c h; exact ⟨step_fl g c e h, ih _ _ (step_fl g c e h).fl⟩
+
+theorem grun_fl : ∀ (evs : List Event) (g : Led) (c : Conn), FL g c → FL (grun g c evs).1 (grun g c evs).2 := by
+  intro evs
+  induction evs with
+  | nil => intro g c h; exact h
+  | cons e es ih => intro g c h; exact ih _ _ (step_fl g c e h).fl
+
+theorem GAll.imp {P Q : Led → Conn → Event → Prop} (hpq : ∀ g c e, P g c e → Q g c e) :
+    ∀ (evs : List Event) (g : Led) (c : Conn), GAll P g c evs → GAll Q g c evs := by
+  intro evs
+  induction evs with
+  | nil => intros; trivial
+  | cons e es ih => intro g c h; exact ⟨hpq _ _ _ h.1, ih _ _ h.2⟩
+
+/-! ### the ledgers of what was sent are the DATA frames of the outputs, nothing else -/
+
+theorem Led.recv_sent (g : Led) (f : Frame.Frame) : (g.recv f).connSent = g.connSent ∧ (g.recv f).strSent = g.strSent := by
+  unfold Led.recv
+  repeat' split
+  all_goals exact ⟨rfl, rfl⟩
+
+theorem recvFrames_sent (fs : List RdFrame) : ∀ (c : Conn) (g : Led),
+    (recvFrames fs c g).connSent = g.connSent ∧ (recvFrames fs c g).strSent = g.strSent := by
+  induction fs with
+  | nil => intros; exact ⟨rfl, rfl⟩
+  | cons x xs ih =>
+    intro c g
+    cases x with
+    | unknown => exact ih c g
+    | bad a b => exact ⟨rfl, rfl⟩
+    | frame f =>
+      simp only [recvFrames]
+      split
+      · exact ⟨rfl, rfl⟩
+      · split
+        · exact g.recv_sent f
+        · obtain ⟨a, b⟩ := ih (rdFrame c f).1 (g.recv f)
+          obtain ⟨a', b'⟩ := g.recv_sent f
+          exact ⟨a.trans a', b.trans b'⟩
+
+theorem recvEvent_sent (g : Led) (c : Conn) (ev : Event) :
+    (recvEvent g c ev).connSent = g.connSent ∧ (recvEvent g c ev).strSent = g.strSent := by
+  cases ev with
+  | bytes b => simp only [recvEvent]; split; exact ⟨rfl, rfl⟩; exact recvFrames_sent _ _ _
+  | _ => exact ⟨rfl, rfl⟩
+
+/-- all frames written in a run, in order -/
+def runFrames (outs : List StepOut) : List OutFrame := outs.flatMap outFrames
+
+/-- **the `sent` ledgers are the DATA octets of the run's outputs**, per stream and in total -/
+theorem grun_sent : ∀ (evs : List Event) (g : Led) (c : Conn),
+    (grun g c evs).1.connSent = g.connSent + dataAll (runFrames (run c evs).2) ∧
+    ∀ sid, (grun g c evs).1.strSent sid = g.strSent sid + dataOn sid (runFrames (run c evs).2) := by
+  intro evs
+  induction evs with
+  | nil => intro g c; exact ⟨rfl, fun _ => rfl⟩
+  | cons e es ih =>
+    intro g c
+    obtain ⟨i1, i2⟩ := ih (gstep g c e) (step c e).1
+    obtain ⟨r1, r2⟩ := recvEvent_sent g c e
+    simp only [grun, run_cons, runFrames, List.flatMap_cons, dataAll_append, dataOn_append]
+    simp only [runFrames] at i1 i2
+    constructor
+    · rw [i1]; simp only [gstep, Led.wrote, r1]; omega
+    · intro sid; rw [i2 sid]; simp only [gstep, Led.wrote, r2]; omega
+
+/-! ### the connection the driver creates -/
+
+/-- `Init` and the values `Settings.Read` admits -/
+structure InitF (c : Conn) : Prop where
+  init : Init c
+  win : 0 ≤ c.streamWindow ∧ c.streamWindow ≤ 2147483647
+  mfs : MfsOK c.maxFrameSize
+
+def Led.init (c : Conn) : Led := { iws := c.streamWindow }
+
+theorem fl_init {c : Conn} (h : InitF c) : FL (Led.init c) c := by
+  have i := h.init
+  refine ⟨rfl, h.win, ?_, ?_, ?_, ?_, ?_, fun _ _ => rfl, h.mfs, ?_⟩
+  · rw [i.connWindow]; unfold Rng; omega
+  · rw [i.connWindow]; simp [Led.init]
+  · simp [Led.init]
+  · rw [i.pending]; exact sortedA_nil
+  · rw [i.pending]; exact fun p hp => nomem hp
+  · rw [i.outQ]; exact fun f hf => nomem hf
+
+theorem initF_default : InitF {} := ⟨init_default, by decide, by unfold MfsOK; decide⟩
+
+theorem handshake_initF {b : Bytes} {c : Conn} (h : Drv.handshake b = some c) : InitF c := by
+  refine ⟨handshake_init h, ?_, ?_⟩
+  all_goals (
+    unfold Drv.handshake at h
+    split at h
+    · rename_i f hsp
+      have hok : FrameOK f := splitFrames_ok 2 b f (by rw [hsp]; exact List.mem_cons_self ..)
+      split at h
+      · rename_i s hb
+        have := hok s hb
+        split at h
+        · simp only [Option.some.injEq] at h; subst h; first | decide | (unfold MfsOK; decide)
+        · simp only [Option.some.injEq] at h; subst h
+          first
+            | exact ⟨by simp, by simp only; have := this.win; omega⟩
+            | exact this.frame
+      · cases h
+    · cases h)
+
 end H2.Client
